@@ -81,6 +81,10 @@ def build_corpus(tier, rng):
         else:
             it.attr_delims = {"braces": [1], "brackets": [2], "mixed": [0, 1, 2]}[form]
         items.append(("attr-forms", it))
+    # `disabled` as a props KEY (or inside a literal) is not the option `disabled`: the variant stays enabled
+    items.append(("option-lookalikes", Item("E", [Variant("Open", "unit"), Variant("Save", "tuple", [Field("u8")], [props([("disabled", ("s", "true")), ("default", ("b", True))])]),
+                                                  Variant("Quit", "unit", [], [ser("disabled"), msg("disabled")]), Variant("Gone", "unit", [], [props([("x", ("i", 1))]), DISABLED]),
+                                                  Variant("Help", "named", [Field("u8", "f")], [props([("transparent", ("i", 0))])])])))
     # a payload whose Default PANICS (hp.rs `Boom`): every variant in front of it (from either end) is still yielded; a DISABLED variant with
     # such a payload does not matter at all
     items.append(("panicking-default", Item("E", [Variant("Open", "unit"), Variant("Close", "named", [Field("u8", "id")]), Variant("Gone", "tuple", [Field("Boom")], [DISABLED]),
